@@ -279,7 +279,7 @@ class Machine:
                 ob = self.deref(ops.pop())
                 if ob is NIL:
                     raise Fail("lookup", "nil object")
-                if isinstance(ob, ListRef) and a[0] in LIST_BUILTINS:
+                if isinstance(ob, ListRef) and a[0] in LIST_BUILTINS + ("map", "filter"):
                     ops.append(BuiltIn(a[0]))
                     ip = nxt
                     continue
@@ -524,6 +524,25 @@ class Machine:
                         if not bargs:
                             raise Fail("call", "built-in without a receiver")
                         # the native call runs inside its own frame; a failing built-in leaves that frame on the stack
+                        if f.on != "map" and f.name in ("map", "filter"):
+                            # callback-driven built-ins: the bridge calls the function value once per element, in order, and collects
+                            # what it returns (map) / the elements it accepts (filter) in a NEW list
+                            if not isinstance(bargs[0], ListRef) or len(bargs) != 2 or not isinstance(bargs[1], Fn):
+                                raise Unsupported("map / filter operands")
+                            out_items = []
+                            for el in list(bargs[0].items):
+                                r = self.run_function(bargs[1].name, [el], bargs[1].captures)
+                                if f.name == "map":
+                                    out_items.append(r)
+                                else:
+                                    r = self.deref(r)
+                                    if not is_bool(r):
+                                        raise Fail("filter", "callback did not return a bool")
+                                    if o.branch(r):
+                                        out_items.append(el)
+                            ops.append(ListRef(out_items))
+                            ip = nxt
+                            continue
                         self.stack.append(Frame("<native code>#NonSweepingBuiltInFunction(%s)" % NATIVE_NAMES.get(f.name, f.name)))
                         rv = (map_builtin if f.on == "map" else list_builtin)(o, f.name, bargs[0], bargs[1:])
                         if f.on == "map" and f.name in ("remove", "replace") and rv is not NIL:
@@ -543,7 +562,7 @@ class Machine:
             elif op == "ret":
                 if len(ops) > 1:
                     raise Fail("ret", "can only return a single item")
-                rv = ops.pop() if ops else None
+                rv = self.deref(ops.pop()) if ops else None        # a function returns a value, not a view (fix in `ret`)
                 # pop_until_function
                 while self.stack and self.stack[-1].label in SPECIAL:
                     self.stack.pop()
